@@ -9,5 +9,6 @@ CONSTANTS
   AllVariants = FALSE
   MultiEvery = 4
   MultiPlans = 1
+  OptEvery = 3
 INVARIANT Emit
 CHECK_DEADLOCK FALSE
